@@ -837,9 +837,12 @@ class FlatSamplerCache:
             debug_info = api_util.debug_info("_make_flat", f, args, kwargs)
             jaxpr, *_ = stage(f)(*args, **kwargs)
 
-            def flat(*flat_args, **params):
-                consts, args = split_list(flat_args, [params["num_consts"]])
-                return eval_jaxpr(jaxpr.jaxpr, consts, *args)
+            def flat(key, *flat_args, **params):
+                # flat_args are the sampling equation's operands: the constants of the
+                # keyless staging (params["num_consts"] of them) followed by the site's
+                # arguments; this keyful staging carries its own constants.
+                _, args = split_list(flat_args, [params["num_consts"]])
+                return eval_jaxpr(jaxpr.jaxpr, jaxpr.literals, key, *args)
 
             return flat, debug_info
 
@@ -897,15 +900,16 @@ class VmapBatchHandler:
         outer_batch_dim = self._compute_outer_batch_dim(n, axis_size)
         new_sample_shape = outer_batch_dim + self.config.sample_shape
 
+        # The operands are the constants of the staged keyless sampler followed by
+        # the site's flattened arguments; only the latter are re-bound.
         # A site called with keyword parameters was flattened to (args, kwargs)
         # leaves: rebuild them so the keywords reach the sampler by name
         # instead of positionally in flattening order
+        site_args = vector_args[params.get("num_consts", 0) :]
         if params.get("yes_kwargs", False):
-            args, kwargs = jtu.tree_unflatten(
-                params["in_tree"], vector_args[params["num_consts"] :]
-            )
+            args, kwargs = jtu.tree_unflatten(params["in_tree"], site_args)
         else:
-            args, kwargs = vector_args, {}
+            args, kwargs = site_args, {}
 
         # Create new sampler with updated sample shape
         new_config = self.config.with_sample_shape(new_sample_shape)
